@@ -13,9 +13,9 @@ import (
 type Step struct {
 	At  int    `json:"at"`  // offset from scenario start (ms)
 	Th  int    `json:"th"`  // caller goroutine
-	Op  string `json:"op"`  // q (Queue) p (QueuePrioritized) a (StartASAP) s (Schedule) z (Schedule(zero)) d (MaxDelay) c (Cancel)
+	Op  string `json:"op"`  // q (Queue) p (QueuePrioritized) a (StartASAP) s (Schedule, relative) S (Schedule, absolute) z (Schedule(zero)) d (MaxDelay) c (Cancel)
 	T   int    `json:"t"`   // task index
-	Arg int    `json:"arg"` // s: delay relative to the call in ms (may be negative); d: max delay in microseconds
+	Arg int    `json:"arg"` // s: delay relative to the call in ms (may be negative); S: ms after scenario start; d: max delay in microseconds
 }
 
 // InFn is an API call issued from inside a running task function (re-queueing and friends).
@@ -81,6 +81,11 @@ func randomScn(r *rand.Rand, kind string) *Scn {
 		s.N = 1 + r.Intn(2)
 	}
 	horizon := pick(r, 30, 60, 100, 150)
+	long := kind == "rand-long"
+	if long {
+		s.N = 1 + r.Intn(3)
+		horizon = 400
+	}
 	for i := 0; i < s.N; i++ {
 		n := 1 + r.Intn(3)
 		d := make([]int, n)
@@ -90,19 +95,24 @@ func randomScn(r *rand.Rand, kind string) *Scn {
 		s.Dur = append(s.Dur, d)
 	}
 	nsteps := 1 + r.Intn(4*s.N+2)
+	if long {
+		nsteps = 30 + r.Intn(40)
+	}
 	nth := 1 + r.Intn(3)
-	ops := "qqqqpppaaasssszddcc"
-	if kind == "rand-nocancel" {
-		ops = "qqqqpppaaasssszdd"
+	ops := "qqqqpppaaasssSzddcc"
+	if kind == "rand-nocancel" || long {
+		ops = "qqqqpppaaasssSzdd"
 	}
 	if kind == "rand-sched" {
-		ops = "sssssszqad"
+		ops = "sssSSSSzqad"
 	}
 	for i := 0; i < nsteps; i++ {
 		st := Step{At: r.Intn(horizon), Th: r.Intn(nth), T: r.Intn(s.N), Op: string(ops[r.Intn(len(ops))])}
 		switch st.Op {
 		case "s":
 			st.Arg = pick(r, -20, 0, 1, 5, 10, 20, 40, 80, 120, 200)
+		case "S":
+			st.Arg = pick(r, 0, 20, 20, 50, 50, 50, 100, 100, 160)
 		case "d":
 			st.Arg = pick(r, 0, 0, 1, 1000, 5000, 10000, 30000, 60000000) // microseconds
 		}
